@@ -666,6 +666,8 @@ func (f *Frame) indexAddr(st *State, ins *ssa.IndexAddr) Value {
 	case *types.Slice:
 		arr, off, ln, _ := sliceParts(base)
 		f.inRange(st, ins, idx, ln)
+		// (a slice with an element has an array: its element addresses are not nil)
+		st.PC = B.And(st.PC, B.Neq(arr, B.IntC(0)))
 		// a sub-slice s[c:] of a slice with offset o has offset o+c: index it as (o, c+idx), so that
 		// its elements are the same terms as the elements of s (quantified invariants about s apply)
 		if off.Op == "bvadd" && len(off.Args) == 2 {
